@@ -26,6 +26,7 @@ RULE = (
     "steps, with empty worker/facility lists throughout, and is FINISHED at the next step. Refusal: from a "
     "never-simulated or failed file a warning is issued and every attribute of the task is unchanged. "
     'One case in three configures the same task object first from an older result at the same path, rewrites the file and configures again. '
+    'The task object is constructed with either setting of its own remove_absence_time_list flag. '
     "Non-trivial = a successful configuration with D >= 2, unit ratio != 1, and a predecessor or a parent absence "
     "step inside the task's span; distinct by case hash."
 )
